@@ -17,7 +17,7 @@ PROPS = {
              "replacement, omega, damping, check_after, maxiter 0..200); tol = max(drawn, 4000 u_P K (maxiter+2) G). Oracles: (a) |reported - true| <= 0.01 max + 200 u_P K (iters+2) G with the true residual in long double "
              "from the caller's arrays (left: ||P(f - A x)||/||f|| through precond().apply), K = max(kappa_1(A), ||A||_1 ||B||_1 max(1, ||(AB)^-1||_1)) from the extracted preconditioner B, u_P = max(u, measured relative accuracy of one preconditioner application when it exceeds 1e3 u), G = largest relative residual of the "
              "history (initial, final, and - evaluated lazily from truncated re-runs - intermediate peaks); (b) reported < tol => true < 1.1 tol; (c) iters <= maxiter (+L-1 for BiCGStab(L)). "
-             "c01_truth/richardson_rate: (d) per-step A-norm bound with rho(I - w B A) from the extracted cycle and the iteration count to tol for rho < 1. "
+             "c01_truth/richardson_rate: (d) per-step A-norm bound with rho(I - w B A) from the extracted cycle and the iteration count to tol for rho < 1 (symmetric cycles); for unsymmetric cycles (npre != npost, V/W(0,nu), V/W(nu,0)) rho(I - w B A) < 1 and progress of the iteration in 40 steps, outside the C02 regions F-agg / F-smoother-coarse / F-emin-residue. "
              "Sub-domain M (c01_model): isotropic 2-D/3-D grids (>= 8 points per axis) and connected bounded-degree random graphs, contrast <= 10, default amg and solver parameters with n in (3000,15000] or "
              "coarse_enough=500 with n in (1000,15000]: every coarsening x relaxation x Krylov method (x side) returns reported < 1e-8 within 100 iterations (+L-1), truthfully; kappa_inf(A) from a certificate verified in long double. "
              "non-trivial: >= 2 iterations and (>= 2 levels or a relaxation-only preconditioner). distinct = distinct decoded choice sequences (64-bit hash), united over shards. "
